@@ -523,9 +523,8 @@ fn callee(rng: &mut StdRng, kind: u32) -> Vec<Instruction> {
             p.push(op::ret(RegId::HP));
         }
         3 => {                                           // recursion: call self with a - 1 while a > 0 (call params rebuilt on the heap)
-            p.push(op::jnzf(r(8), RegId::ZERO, 1));      // if a != 0 skip the return
+            p.push(op::jnzf(r(8), RegId::ZERO, 1));      // if a != 0 skip the return ($pc += (imm + 1) * 4)
             p.push(op::ret(RegId::ZERO));
-            p.push(op::ret(RegId::ZERO));                // (padding so the skip lands right)
             p.push(op::movi(r(4), 48)); p.push(op::aloc(r(4)));
             p.push(op::mcpi(RegId::HP, RegId::FP, 32));  // to = own id (first 32 bytes of the frame)
             p.push(op::subi(r(8), r(8), 1));
@@ -539,7 +538,7 @@ fn callee(rng: &mut StdRng, kind: u32) -> Vec<Instruction> {
             p.push(op::ret(r(6)));
         }
         8 => {                                           // recursion as in 3, but the INNERMOST callee allocates 8 bytes and stores one
-            p.push(op::jnzf(r(8), RegId::ZERO, 3));      // word ABOVE its allocation: at depth >= 2 that is the calling contract's heap
+            p.push(op::jnzf(r(8), RegId::ZERO, 4));      // word ABOVE its allocation: at depth >= 2 that is the calling contract's heap
             p.push(op::movi(r(4), 8)); p.push(op::aloc(r(4)));
             p.push(op::sw(RegId::HP, r(1), 1));
             p.push(op::ret(RegId::ONE));
@@ -580,7 +579,7 @@ fn calls(o: &Opts, out: &mut Out, run: &mut u64) {
     for k in 0..n {
         let mut tb = TestBuilder::new(o.seed.wrapping_add(k as u64));
         let asset: AssetId = if k % 3 == 0 { AssetId::zeroed() } else { rng.gen() };
-        let kind = rng.gen_range(0..9u32);
+        let kind = [0u32, 1, 2, 3, 3, 4, 5, 6, 7, 8, 8][rng.gen_range(0..11)];   // the recursive shapes (3, 8) twice as often
         let c1 = tb.setup_contract(callee(&mut rng, kind), if k % 4 == 0 { Some((asset, rng.gen_range(0..1000))) } else { None }, None).contract_id;
         let k2 = rng.gen_range(0..3u32); let c2 = tb.setup_contract(callee(&mut rng, k2), None, None).contract_id;
         let not_input: ContractId = rng.gen();
